@@ -476,25 +476,253 @@ def r_reserve_only(F, R, cat=None):
 # R-CLONE
 
 
-def copy_tree(t, key, path):
-    """t denotes a copy of self.<path>: the place itself (clone()/copied() are transparent in
-    trees), or an enum/struct aggregate rebuilt from copies of the same variant's payload"""
+def copy_tree(t, key, path, root=("arg", 1)):
+    """t denotes a copy of <root>.<path> (self by default): the place itself (clone()/copied()
+    are transparent in trees), or an enum/struct aggregate rebuilt from copies of the same
+    variant's payload"""
     if t[0] == "place":
-        return t[1] == key and t[2] == ("arg", 1) and tuple(t[3]) == tuple(path)
+        return t[1] == key and t[2] == root and tuple(t[3]) == tuple(path)
     if t[0] == "phi":
         # a payload-free variant (`None => None`) is a copy only next to alternatives that copy
         # the payload-carrying variants of the same field
         unit = [a for a in t[1] if a[0] == "agg" and not a[2]]
         rest = [a for a in t[1] if a not in unit]
-        return bool(rest) and all(copy_tree(a, key, path) for a in rest)
+        return bool(rest) and all(copy_tree(a, key, path, root) for a in rest)
     if t[0] == "agg" and "::" in str(t[1]) and not str(t[1]).startswith("closure:"):
         if not t[2]:
             return False  # a constant variant on its own copies nothing
         variant = str(t[1]).split("::")[-1]
-        return all(copy_tree(op, key, tuple(path) + ("v:" + variant, "f:%d" % i)) or
-                   copy_tree(op, key, tuple(path) + ("f:%d" % i,))
+        return all(copy_tree(op, key, tuple(path) + ("v:" + variant, "f:%d" % i), root) or
+                   copy_tree(op, key, tuple(path) + ("f:%d" % i,), root)
                    for i, op in enumerate(t[2]))
     return False
+
+
+def _tuple_arity(ty):
+    ty = ty.strip()
+    if not ty.startswith("("):
+        return 1
+    depth = 0
+    n = 1
+    inner = ty[1:-1] if ty.endswith(")") else ty[1:]
+    if not inner.strip():
+        return 0
+    for ch in inner:
+        if ch in "(<[":
+            depth += 1
+        elif ch in ")>]":
+            depth -= 1
+        elif ch == "," and depth == 0:
+            n += 1
+    if inner.rstrip().endswith(","):
+        n -= 1
+    return n
+
+
+def _payload_types(body, adt_field):
+    """{variant: type string of payload field 0} read off the field projections in the body"""
+    out = {}
+    def scan(pl):
+        ps = pl["p"]
+        for k, e in enumerate(ps):
+            if e["k"] == "field" and e.get("name") == adt_field and k + 2 < len(ps) + 1:
+                rest = ps[k + 1:]
+                if len(rest) >= 2 and rest[0]["k"] == "downcast" and rest[1]["k"] == "field" and rest[1].get("i") == 0:
+                    out.setdefault(rest[0].get("name") or str(rest[0].get("variant")), rest[1].get("ty", ""))
+    for bi in body.live_blocks():
+        for st in body.blocks[bi]["stmts"]:
+            if "place" in st:
+                scan(st["place"])
+            if st["k"] == "assign":
+                rv = st["rv"]
+                if "place" in rv:
+                    scan(rv["place"])
+                for key in ("op", "a", "b"):
+                    v = rv.get(key)
+                    if isinstance(v, dict) and v.get("k") in ("copy", "move"):
+                        scan(v["place"])
+    return out
+
+
+def _split_top(s):
+    out, depth, cur = [], 0, ""
+    for ch in s:
+        if ch in "(<[":
+            depth += 1
+        elif ch in ")>]":
+            depth -= 1
+        if ch == "," and depth == 0:
+            out.append(cur.strip())
+            cur = ""
+        else:
+            cur += ch
+    if cur.strip():
+        out.append(cur.strip())
+    return out
+
+
+def _payload_types_of_type(F, ty):
+    """{variant: payload type} from the declared type of an enum-typed field"""
+    ty = ty.strip()
+    for (prefix, names) in (("std::result::Result<", ("Ok", "Err")), ("std::option::Option<", ("Some",))):
+        if ty.startswith(prefix) and ty.endswith(">"):
+            args = _split_top(ty[len(prefix):-1])
+            return {n: a for n, a in zip(names, args)}
+    base = ty.split("<")[0]
+    a = F.adts.get(base)
+    if a and a.get("kind") == "enum":
+        return {v["name"]: (v["fields"][0]["ty"]["s"] if v["fields"] else "()") for v in a["variants"]}
+    return {}
+
+
+def component_sites(b, ctx, effs, f):
+    """blocks at which one variant of the enum-typed field f has been copied completely,
+    component by component, from the same variant of source.f"""
+    ptypes = _payload_types(b, f)
+    F = b.facts
+    adt = F.adts.get(b.self_adt)
+    if adt and adt["variants"]:
+        for fd in adt["variants"][0]["fields"]:
+            if fd["name"] == f:
+                for k, v in _payload_types_of_type(F, fd["ty"]["s"]).items():
+                    ptypes.setdefault(k, v)
+    ups = {}  # variant -> {component index or None: [blocks]}
+    for e in effs:
+        if e.cls not in ("clone_from", "assign"):
+            continue
+        for (c2, (r, p)) in e.targets or ():
+            if c2 is not ctx or r != ("arg", 1) or p[:1] != ("f:" + f,) or len(p) < 3 or not p[1].startswith("v:"):
+                continue
+            variant = p[1][2:]
+            if p[2] != "f:0":
+                continue
+            comp = p[3] if len(p) > 3 else None
+            if len(p) > 4:
+                continue  # deeper than one component level: not handled
+            want = (("arg", 2), tuple(p))
+            if e.cls == "clone_from":
+                src = e.argorigins[1] if len(e.argorigins) > 1 else set()
+                good = src == {want}
+            else:
+                good = True
+                for o in e.value:
+                    if o == want:
+                        continue
+                    if o[0][0] == "call":
+                        t = e.ctx.body.term(o[0][1])
+                        if callee_tag(t.get("callee")) == ("Clone", "clone") and t["args"] and \
+                                e.ctx.org.operand(t["args"][0]) == {want}:
+                            continue
+                    good = False
+            if good:
+                ups.setdefault(variant, {}).setdefault(comp, []).append(e.top_bb)
+    sites = set()
+    notes = []
+    for variant, comps in ups.items():
+        if None in comps:
+            sites |= set(comps[None])
+            notes.append("%s payload copied whole" % variant)
+            continue
+        if variant not in ptypes:
+            notes.append("%s arm: payload type unknown, component-wise copy not decided" % variant)
+            continue
+        arity = _tuple_arity(ptypes[variant])
+        if None in comps:
+            sites |= set(comps[None])
+            notes.append("%s payload copied whole" % variant)
+            continue
+        need = ["f:%d" % i for i in range(arity)]
+        missing = [c for c in need if c not in comps]
+        if missing:
+            notes.append("%s arm: component %s of the payload is not copied from the source" % (
+                variant, ", ".join(m[2:] for m in missing)))
+            continue
+        # the point where all components are done: an update block dominated by (or equal to) an
+        # update block of every other component
+        for c in need:
+            for x in comps[c]:
+                if all(any(u == x or b.dominates(u, x) for u in comps[c2]) for c2 in need):
+                    sites.add(x)
+        notes.append("%s arm: all %d components copied" % (variant, arity))
+    return sites, notes
+
+
+def reach_strict_(b, x):
+    from expr import reach_strict
+    return reach_strict(b, x)
+
+
+def enum_clone_from(F, R, b, ctx, effs):
+    """clone_from of an enum: on every path either the whole value is replaced by a copy of the
+    source, or -- in an arm where both sides are the same variant -- every field of that variant is
+    updated from the same field of the source."""
+    from expr import tree as _tree
+    adt = F.adts[b.self_adt]
+    vfields = {v["name"]: len(v["fields"]) for v in adt["variants"]}
+    sites = set()
+    notes = []
+    ups = {}
+    for e in effs:
+        if e.cls not in ("clone_from", "assign"):
+            continue
+        for (c2, (r, p)) in e.targets or ():
+            if c2 is not ctx or r != ("arg", 1):
+                continue
+            if p == ():
+                # whole self
+                if e.cls == "clone_from":
+                    good = (e.argorigins[1] if len(e.argorigins) > 1 else set()) == {(("arg", 2), ())}
+                else:
+                    good = bool(e.value)
+                    for o in e.value:
+                        if o == (("arg", 2), ()):
+                            continue
+                        if o[0][0] == "call":
+                            t = e.ctx.body.term(o[0][1])
+                            if callee_tag(t.get("callee")) == ("Clone", "clone") and t["args"] and \
+                                    e.ctx.org.operand(t["args"][0]) == {(("arg", 2), ())}:
+                                continue
+                        if o[0][0] == "agg" and copy_tree(_tree(e.ctx, o), e.ctx.body.key, (), root=("arg", 2)):
+                            continue
+                        good = False
+                if good:
+                    sites.add(e.top_bb)
+                    notes.append("whole value copied")
+                continue
+            if len(p) != 2 or not p[0].startswith("v:") or not p[1].startswith("f:"):
+                continue
+            want = (("arg", 2), tuple(p))
+            if e.cls == "clone_from":
+                good = (e.argorigins[1] if len(e.argorigins) > 1 else set()) == {want}
+            else:
+                good = bool(e.value)
+                for o in e.value:
+                    if o == want:
+                        continue
+                    if o[0][0] == "call":
+                        t = e.ctx.body.term(o[0][1])
+                        if callee_tag(t.get("callee")) == ("Clone", "clone") and t["args"] and \
+                                e.ctx.org.operand(t["args"][0]) == {want}:
+                            continue
+                    good = False
+            if good:
+                ups.setdefault(p[0][2:], {}).setdefault(p[1], []).append(e.top_bb)
+    for variant, comps in ups.items():
+        need = ["f:%d" % i for i in range(vfields.get(variant, 0))]
+        named = [fd["name"] for v in adt["variants"] if v["name"] == variant for fd in v["fields"]]
+        need = ["f:" + nm for nm in named] if named and not named[0].isdigit() else need
+        missing = [c for c in need if c not in comps]
+        if missing or not need:
+            notes.append("%s arm: field %s is not copied from the source" % (variant, ", ".join(m[2:] for m in missing)))
+            continue
+        for c in need:
+            for x in comps[c]:
+                if all(any(u == x or b.dominates(u, x) for u in comps[c2]) for c2 in need):
+                    sites.add(x)
+        notes.append("%s arm: all %d fields copied" % (variant, len(need)))
+    ok = bool(sites) and not b.can_return_avoiding(sites)
+    R.check("R-CLONE", b.label(), ok, construct="every path copies the whole value or every field of the matched variant",
+            where=b.where(), detail="; ".join(sorted(set(notes))) or "no update of self from the source found")
 
 
 def r_clone(F, R, cat=None, only=None):
@@ -510,6 +738,12 @@ def r_clone(F, R, cat=None, only=None):
         if adt not in F.adts:
             continue
         a = F.adts[adt]
+        if a["kind"] == "enum" and b.name == "clone_from":
+            R.saw(b)
+            ctx, effs = cat.effects(b)
+            n_from += 1
+            enum_clone_from(F, R, b, ctx, effs)
+            continue
         if a["kind"] != "struct":
             continue
         fields = a["variants"][0]["fields"]
@@ -593,6 +827,11 @@ def r_clone(F, R, cat=None, only=None):
                                     src = e.ctx.org.operand(t["args"][0]) if t["args"] else set()
                                     if tag == ("Clone", "clone") and src == {(("arg", 2), ("f:" + f,))}:
                                         continue
+                                if r[0] == "agg":
+                                    # rebuilt variant by variant from the source's payloads
+                                    from expr import tree as _tree
+                                    if copy_tree(_tree(e.ctx, o), e.ctx.body.key, ("f:" + f,), root=("arg", 2)):
+                                        continue
                                 good = False
                             if good:
                                 sites.add(e.top_bb)
@@ -600,10 +839,35 @@ def r_clone(F, R, cat=None, only=None):
                             else:
                                 why.append("assigned from %s" % [describe(e.ctx, o) for o in e.value])
                 ok = bool(sites) and not b.can_return_avoiding(sites)
+                if not ok:
+                    # variant by variant (`match (&mut self.f, &source.f) { (Ok((a, b)), Ok((sa, sb))) => ..`):
+                    # an arm is complete at the point where every component of the variant's payload
+                    # has been updated from the same component of the source
+                    arm_sites, notes = component_sites(b, ctx, effs, f)
+                    sites2 = sites | arm_sites
+                    if arm_sites and not b.can_return_avoiding(sites2):
+                        ok = True
+                        why.extend(notes)
+                    elif notes:
+                        why.extend(notes)
+                if ok:
+                    # ... and what was copied is not wiped again afterwards (a `self.clear()` after
+                    # the field was copied resets it to its default)
+                    wipers = []
+                    for e in effs:
+                        if e.cls not in ("clear", "destructive") or e.top_bb in sites:
+                            continue
+                        hit = any((ff == f and rest == ()) or (ff is None and rest == ())
+                                  for (ff, rest) in self_field_targets(e, ctx))
+                        if hit and any(e.top_bb in reach_strict_(b, s_) for s_ in sites):
+                            wipers.append("%s::%s at line %s" % (e.tag[0], e.tag[1], e.line))
+                    if wipers:
+                        ok = False
+                        why.append("copied, then reset again by %s" % ", ".join(wipers))
                 R.check("R-CLONE", b.label(), ok, construct="field " + f, where=b.where(),
                         detail="; ".join(why) or "field not updated from source")
-    R.floor("R-CLONE", "hand-written clone bodies", n_clone, 13 if not only else 1)
-    R.floor("R-CLONE", "hand-written clone_from bodies", n_from, 11 if not only else 1)
+    R.floor("R-CLONE", "hand-written clone bodies", n_clone, 13 if not only else 0)
+    R.floor("R-CLONE", "hand-written clone_from bodies", n_from, 11 if not only else 0)
 
 
 # ---------------------------------------------------------------------------------------------
